@@ -149,7 +149,9 @@ CONFIG = {
     'C10': {
         'profiles': [('roles-matrix', 324, 324), ('admin-random', 30, 600)],
         # the property speaks about submitters who do not hold the role: only those steps are compared
-        'rules': [(ADMIN_RE, 'R', None, unauthorised), (ADMIN_RE, 'S', None, unauthorised), (ADMIN_RE, 'E', None, unauthorised)],
+        'rules': [(ADMIN_RE, 'R', None, unauthorised), (ADMIN_RE, 'S', None, unauthorised), (ADMIN_RE, 'E', None, unauthorised),
+                  (ADMIN_RE, 'WF', None, unauthorised)],   # the theorem also says the handler's own branch is untouched
+
         'monitors': [M.mon_c10],
         'level_text': 'Theorem for all states with the four role slots set (an invariant of every initialised chain, also proved), all 18 privileged transaction types and all submitters other than the holder of the matching role: the outcome is an error (never a panic) and store, ledger, events and dependency calls are untouched. The Go handlers are tied to the model by exhaustive differential execution of the whole matrix (every assignment of five role slots over three accounts x 18 types x 3 submitters) in both tiers.',
         'assumptions': ['accounts are identified by the From string as the code does; an upper-case spelling of the holder is a different submitter'],
@@ -163,6 +165,7 @@ CONFIG = {
     'C13': {
         'profiles': [('attester-closure', 100, 1000), ('admin-random', 30, 600)],
         'rules': [(ATT_TX_RE, 'R', None), (ANY, 'S', r'^(attester |num name=threshold)'), (ATT_TX_RE, 'E', None),
+                  (ATT_TX_RE, 'WF', None),   # rejected attester transactions do not even touch their own branch (the named rejections are handler equalities)
                   (r'Q:(Attesters|SignatureThreshold)', 'QR', None)],
         'monitors': [M.mon_c13],
         'level_text': 'Theorem: 1 <= threshold <= number of enabled attesters is preserved by every transaction of every type with any arguments by any submitter, hence along every history of any length (up to the 2^32 point where Go\'s uint32(len) wraps, stated); the six named rejections are proved to be errors without effect. The Go handlers are tied to the model by exhaustive differential execution from every start state over a universe of 4 (thorough: 5) attester strings.',
@@ -183,7 +186,7 @@ CONFIG = {
 }
 
 import os
-ALLK = ['R','E','D','S','QR','V','A','C','GV','GI','XR','X']
+ALLK = ['R','E','D','S','QR','V','A','C','GV','GI','XR','X','WF']
 CONFIG['DEV'] = {
     'claimed': False, 'na_reason': 'development aid, not a property',
     'profiles': [(x, int(os.environ.get('DEV_N', '5')), 50) for x in os.environ.get('DEV_PROFILES', 'admin-random').split(',')],
